@@ -662,6 +662,7 @@ Definition guard_covered : list (string * string * string) := [
   ("colvarcomp_coordnums.cpp", "pairListFrequency", "coordnum_init / coordnum_step_uses") ].
 
 Definition guard_exempt : list (string * string * string) := [
+  ("colvar.cpp", "runAveLength", "loop bound when the window of a running average is restored from a state (repair of round 5): the same loop is also bounded by the number of values actually present in the state (iw < window.size()), so the keyword cannot make it run over more data than exist");
   ("colvarbias_abf.cpp", "pABFintegrateFreq", "guarded at its only use: pabf_freq && step % pabf_freq");
   ("colvarbias_abf.cpp", "sharedFreq", "guarded at both uses: shared_freq && ... % shared_freq");
   ("colvarbias_alb.cpp", "UpdateFrequency", "divisor of a floating-point division only; must be > 0 (checked in init)");
